@@ -21,6 +21,27 @@ def add_to(run):
     discharge_all(run, obs, timeout_ms=60000)
 
 
+def add_population(run):
+    """what prepare() records and which chunks it builds, for any set of register ranges (contracts/prepare_term.py)"""
+    from contracts import prepare_term as c
+    try:
+        fv = c.verify_prepare_population()
+    except Unsupported as e:
+        run.functions["amaranth_soc.csr.bus.Multiplexer._Shadow.prepare (population)"] = f"unsupported: {e} (the per-layout L2 clauses decide)"
+        run.bounded_notes.append(f"prepare() population contract: source outside the subset on this tree ({e}); L2 layouts decide")
+        return
+    run.functions["amaranth_soc." + fv.qualname] = (f"proved ({fv.paths} paths, {len(fv.obs)} obligations): every address of every register is recorded under the "
+                                                    f"offset it decodes to, every recorded offset gets one chunk built from its registers")
+    run.require("csr.bus.Multiplexer._Shadow.prepare[population]::an-address-that-is-not-given-up-on-is-recorded-once-under-the-offset-it-decodes-to",
+                "csr.bus.Multiplexer._Shadow.prepare[population]::giving-up-sets-balanced-to-False-and-records-nothing",
+                "csr.bus.Multiplexer._Shadow.prepare[population]::one-chunk-built-from-exactly-this-offset-and-these-registers",
+                "csr.bus.Multiplexer._Shadow.prepare[population]::stored-under-that-offset")
+    run.assumptions.append("prepare() population: defaultdict(list), sorted(), frozenset(), dict() are stubs (a table of lists by key; the sorted ranges are "
+                           "the ranges); decode_address by its own contract (the hash lemma); the induction 'balanced at the end => every iteration "
+                           "recorded' is on paper (balanced is only ever assigned False inside the loops: clause per iteration)")
+    discharge_all(run, fv.obs, timeout_ms=20000)
+
+
 def add_termination(run):
     from contracts import prepare_term as c
     try:
